@@ -220,12 +220,18 @@ func Execute(t *testing.T, c *Case, dir string, rr *raceReader, runWall time.Dur
 	defer os.RemoveAll(dir)
 	ctx := &Ctx{T: t, Seed: c.Seed, Tier: c.Tier, Dir: dir, Prop: c.Property, Index: c.Index, Replay: c.Sched}
 	if len(c.Body) == 0 || string(c.Body) == "null" {
-		body := w.Gen(ctx)
+		var body any
+		if p := guard(func() { body = w.Gen(ctx) }); p != "" {
+			return (&Verdict{}).Harness("generator panicked: %s", p)
+		}
 		b, err := json.Marshal(body)
 		if err != nil {
 			return (&Verdict{}).Harness("marshal case: %v", err)
 		}
 		c.Body = b
+	}
+	if f := os.Getenv("VERIF_DUMPCASE"); f != "" {
+		_ = os.WriteFile(f, c.Body, 0o644) // debugging aid: the materialised case, before it runs
 	}
 	wd := time.AfterFunc(runWall, func() {
 		buf := make([]byte, 1<<20)
@@ -238,14 +244,34 @@ func Execute(t *testing.T, c *Case, dir string, rr *raceReader, runWall time.Dur
 	// map iteration inside the code under test is a function of the run's seed (rewrite R5)
 	simrt.SetMapSeed(simrt.Mix(c.Seed^0x6d6170) | 1)
 	var v *Verdict
-	func() {
+	done := make(chan *Verdict, 1)
+	go func() {
+		var rv *Verdict
 		defer func() {
 			if r := recover(); r != nil {
-				v = (&Verdict{}).Harness("harness panic: %v\n%s", r, debug.Stack())
+				rv = (&Verdict{}).Harness("harness panic: %v\n%s", r, debug.Stack())
 			}
+			done <- rv
 		}()
-		v = w.Run(ctx, c.Body)
+		rv = w.Run(ctx, c.Body)
 	}()
+	stopMon := make(chan struct{})
+	stuck := make(chan string, 1)
+	go lockHangMonitor(stopMon, stuck)
+	select {
+	case v = <-done:
+		close(stopMon)
+	case text := <-stuck:
+		// the goroutines of the code under test wait for each other on locks no scheduler of ours is involved
+		// in: no schedule can free them. The run is abandoned (its goroutines cannot be unwound) and the worker
+		// process ends after this verdict.
+		v = OK()
+		v.CaseKey = simrt.HashStr(string(c.Body))
+		v.NonTrivial = true
+		v.Violate("hang-on-lock", "the call never returns: goroutines of the code under test have been blocked on locks for 20 s of wall time, none of them runnable, none parked by the scheduler\n%s", text)
+		v.Fatal = true
+		return v
+	}
 	simrt.SetMapSeed(0)
 	simrt.AttachDisk(nil)
 	if d := simrt.RaceErrors() - before; d > 0 {
@@ -271,6 +297,88 @@ func Execute(t *testing.T, c *Case, dir string, rr *raceReader, runWall time.Dur
 		v.Fatal = true // the detector de-duplicates reports per process: continue in a fresh one
 	}
 	return v
+}
+
+// lockHangMonitor watches, in wall time, for a deadlock on locks the simulation does not own (sync.Mutex and
+// sync.RWMutex inside the code under test or bbolt): every goroutine that has a frame of the code under test is
+// blocked - at least one of them in Mutex/RWMutex.Lock - none is runnable, in a system call or asleep, and none is
+// parked by the simulated scheduler (a task parked while it holds such a lock is the simulation's doing, not the
+// code's, and stays harness trouble). The picture has to stay exactly the same for 20 s.
+func lockHangMonitor(stop <-chan struct{}, found chan<- string) {
+	tick := time.NewTicker(2500 * time.Millisecond)
+	defer tick.Stop()
+	last, since := "", time.Now()
+	for {
+		select {
+		case <-stop:
+			return
+		case <-tick.C:
+			sig, text := lockStuck()
+			if sig == "" {
+				last = ""
+				continue
+			}
+			if sig != last {
+				last, since = sig, time.Now()
+				continue
+			}
+			if time.Since(since) >= 20*time.Second {
+				found <- text
+				return
+			}
+		}
+	}
+}
+
+var underTestFrames = []string{"github.com/akrennmair/updog.", "github.com/akrennmair/updog/driver.", "github.com/akrennmair/updog/internal/",
+	"github.com/akrennmair/updog/cmd/", "github.com/akrennmair/updog/verifcli.", "go.etcd.io/bbolt."}
+
+func lockStuck() (sig, text string) {
+	buf := make([]byte, 8<<20)
+	n := runtime.Stack(buf, true)
+	if n >= len(buf)-1 {
+		return "", ""
+	}
+	var sigs, texts []string
+	onLock := false
+	for _, g := range strings.Split(string(buf[:n]), "\n\n") {
+		head, body, _ := strings.Cut(g, "\n")
+		first := -1 // offset of the innermost frame of the code under test
+		for _, f := range underTestFrames {
+			i := strings.Index("\n"+body, "\n"+f)
+			if i >= 0 && (first < 0 || i < first) {
+				first = i
+			}
+		}
+		if first < 0 {
+			continue
+		}
+		if i := strings.Index("\n"+body, "\nverif/simrt."); i >= 0 && i < first {
+			return "", "" // parked or spinning inside the simulation's runtime, called from the code under test
+		}
+		lb, rb := strings.Index(head, "["), strings.LastIndex(head, "]")
+		if lb < 0 || rb < lb {
+			return "", ""
+		}
+		state, _, _ := strings.Cut(head[lb+1:rb], ",")
+		state = strings.TrimSuffix(strings.TrimSpace(state), " (durable)")
+		switch state {
+		case "sync.Mutex.Lock", "sync.RWMutex.Lock", "sync.RWMutex.RLock":
+			onLock = true
+		case "chan send", "chan receive", "select", "sync.Cond.Wait", "sync.WaitGroup.Wait", "chan send (nil chan)", "chan receive (nil chan)", "select (no cases)":
+		default:
+			return "", "" // running, runnable, in a system call, asleep: may still move
+		}
+		sigs = append(sigs, head[:lb]+state)
+		if len(g) > 2500 {
+			g = g[:2500]
+		}
+		texts = append(texts, g)
+	}
+	if !onLock {
+		return "", ""
+	}
+	return strings.Join(sigs, "|"), strings.Join(texts, "\n\n")
 }
 
 func contains(xs []string, x string) bool {
@@ -359,11 +467,16 @@ func WorkerMain(t *testing.T) {
 		}
 		c := &Case{Property: a.Property, Tier: a.Tier, Seed: runSeed(a.Base, a.Property, i), Index: i}
 		progress(fmt.Sprintf("run %d seed %d", i, c.Seed))
+		tRun := time.Now()
 		v := Execute(t, c, filepath.Join(a.OutDir, fmt.Sprintf("tmp-%d", a.Worker), fmt.Sprint(i)), rr, time.Duration(a.RunWallS)*time.Second, progress)
 		st.Runs++
 		st.Next = i + a.Stride
 		if runlog != nil {
-			fmt.Fprintf(runlog, "%d %d %s %s y=%d d=%d s=%d a=%d il=%d\n", i, c.Seed, v.Class, v.Sig, v.Counters["yields"], v.Counters["sched_decisions"], v.Counters["context_switches"], v.Counters["arrivals"], v.IL)
+			fmt.Fprintf(runlog, "%d %d %s %s y=%d d=%d s=%d a=%d il=%d", i, c.Seed, v.Class, v.Sig, v.Counters["yields"], v.Counters["sched_decisions"], v.Counters["context_switches"], v.Counters["arrivals"], v.IL)
+			if os.Getenv("VERIF_RUNLOG_TIMES") != "" {
+				fmt.Fprintf(runlog, " ms=%d", time.Since(tRun).Milliseconds()) // off for the determinism self-test, which diffs these logs
+			}
+			fmt.Fprintln(runlog)
 		}
 		st.SimNs += v.SimNs
 		for k, n := range v.Counters {
